@@ -18,6 +18,7 @@ import warnings
 
 import numpy as np
 
+from vf import bigcases
 from vf import core
 from vf import errorpaths
 from vf.oracles import km
@@ -353,3 +354,4 @@ def run(ctx):
     depth = 2 if ctx.tier == "quick" else 3
     hist = [{"ops": list(h)} for d in range(1, depth + 1) for h in itertools.product(alphabet, repeat=d)]
     ctx.run_cases(case_history, hist, sub="call-histories")
+    bigcases.run(ctx, "C19")
